@@ -114,9 +114,7 @@ func (p *producer) cryptoTx(o Op) (*transaction.Transaction, string) {
 // ledgerReadScript: what the native Ledger contract says about an old block / transaction decides what gets stored.
 func (p *producer) ledgerReadScript(o Op) ([]byte, string) {
 	bc := p.n.BC
-	if !p.kalive[o.B%numContracts] {
-		return nil, "ledger read: no helper contract"
-	}
+	haveK := p.kalive[o.B%numContracts]
 	k := p.khash[o.B%numContracts]
 	h := bc.BlockHeight()
 	mtb := bc.GetMaxTraceableBlocks()
@@ -165,6 +163,14 @@ func (p *producer) ledgerReadScript(o Op) ([]byte, string) {
 		p.vmStateReads = append(p.vmStateReads, [2]uint32{h + 1, idx})
 		emit.Opcodes(w.BinWriter, opcode.PUSH0, opcode.NUMEQUAL)
 		what = fmt.Sprintf("getTransactionVMState(of block %d)", idx)
+	}
+	if !haveK {
+		// no helper contract to store the answer in: the transaction HALTs or FAULTs with it
+		emit.Opcodes(w.BinWriter, opcode.ASSERT)
+		if w.Err != nil {
+			panic(w.Err)
+		}
+		return w.Bytes(), fmt.Sprintf("ASSERT(Ledger.%s is absent) at height %d (MaxTraceableBlocks %d)", what, h, mtb)
 	}
 	// bool -> 1 : 2
 	emit.Instruction(w.BinWriter, opcode.JMPIFNOT, []byte{5})
